@@ -225,9 +225,14 @@ theorem sim_cRelease (s : St) (t id v : Nat) (h : Inv s) (w : Win s) (hl : s.thr
 
 theorem sim_lLen (s : St) (t : Nat) (h : Inv s) (w : Win s) (hl : s.thr t = .lLen) :
     step32 (img s) t = some (img (step s t)) := by
-  have := h.hHT; have := h.hTN; have := w.hNs
-  have e : len32 (wrap s.tail) (wrap s.head) = s.tail - s.head := wsub_wrap s.tail s.head (by omega) (by omega)
-  simp only [step32, step, img_thr, hl, imgLoc, img_head, img_tail, e]
+  simp only [step32, step, img_thr, hl, imgLoc, img_tail]
+  close_st t
+
+/-- the second load of the length query: the `u32` machine answers the very `u32` difference the `Nat` model is defined to
+    answer (no window hypothesis: the two loads are taken at two instants, the difference may wrap in both) -/
+theorem sim_lLenH (s : St) (t tl : Nat) (h : Inv s) (w : Win s) (hl : s.thr t = .lLenH tl) :
+    step32 (img s) t = some (img (step s t)) := by
+  simp only [step32, step, img_thr, hl, imgLoc, img_head, len32]
   close_st t
 
 
@@ -303,6 +308,7 @@ theorem sim_step (s : St) (t : Nat) (h : Inv s) (w : Win s) (hni : NotIdx (s.thr
   | cRead id => exact sim_cRead s t id w hl
   | cRelease id v => exact sim_cRelease s t id v h w hl
   | lLen => exact sim_lLen s t h w hl
+  | lLenH tl => exact sim_lLenH s t tl h w hl
 
 theorem imgLoc_idle_iff (l : Loc) : imgLoc l = .idle ↔ l = .idle := by cases l <;> simp [imgLoc]
 
